@@ -530,7 +530,148 @@ check_c11 = parser_check(
     fam_valid_mut_soup(300, 1, 0, styles=("comments", "comments", "random")),
     nontrivial=lambda c, l: l.startswith("OK ") and ("/*" in c.src or "//" in c.src))
 
-KNOWN_CLASSIFIERS = {}
+
+
+# ---------------------------------------------------------------- C04
+
+def check_c04(run, replay):
+    run.trusted = vlib.BASE_TRUST
+    gv, gm, _ = prepare(run)
+    if replay:
+        r = replay_parse(run, replay, gv, gm, mode="expr")
+        return
+    broken = prove(run, "theories/props/C04.v", gen_targets=["gen/GenPrec.vo"])
+    fam = Families(run, gv, gm)
+    cases = pfam.ops_cases(quadruples=(run.tier == "thorough"), seed=seed_of(run),
+                           nrandom=budget(run, 2000, 20000))
+    impl, mod, toks = fam.exec(cases, mode="expr")
+    for c in cases:
+        c.note = "expr"
+    fam.judge(cases, impl, mod, toks, "shape", pfam.oracle_expected_shape,
+              "operators group by the spec's five precedence levels, left associative; unary binds tighter")
+    run.cov["rule"] = ("exhaustive: every sequence of 1, 2, 3%s of the 19 binary operators over distinct operands, every unary operator "
+                       "in every operand slot of every binary operator, every unary operator before every postfix form and before every "
+                       "unary operator; plus random mixtures with one parenthesised sub-range; parsed through Parser::expression by crate "
+                       "and model; oracle: shunting-yard grouping by the spec's table; non-trivial = all (distinct expressions)"
+                       % (", 4" if run.tier == "thorough" else ""))
+    run.cov["exhaustive"] = True
+    run.cov["samples"] = [c.src for c in cases[:: max(1, len(cases) // 6)]][:6]
+    for c in cases:
+        fam.nontrivial.add(hash(c.src))
+    fam.finish(broken)
+
+
+# ---------------------------------------------------------------- C07 / C08 (scanner-level, token dump)
+
+def oracle_tokens(c, line, tl):
+    return pfam.tokens_vs_spec(c.src, line)
+
+
+def lex_check(prop, props_file, gen_targets, families, what, rule, exhaustive):
+    def check(run, replay):
+        run.trusted = vlib.BASE_TRUST
+        gv, gm, _ = prepare(run)
+        if replay:
+            return replay_lex(run, replay, gv, gm)
+        broken = prove(run, props_file, gen_targets=gen_targets)
+        fam = Families(run, gv, gm)
+        cases = families(run)
+        impl, mod, toks = fam.exec(cases, mode="tokens")
+        fam.judge(cases, impl, mod, toks, "full", oracle_tokens, what,
+                  nontrivial=lambda c, l: " | EOF" in l or l.startswith("| EOF"))
+        run.cov["rule"] = rule
+        run.cov["exhaustive"] = exhaustive
+        run.cov["samples"] = [c.src for c in cases[:: max(1, len(cases) // 6)]][:6]
+        fam.finish(broken)
+    return check
+
+
+def fam_lex(run):
+    cases = pfam.lexpair_cases()
+    progs, hit, labels = pfam.gen_programs(seed_of(run), budget(run, 150, 1500))
+    cases += pfam.valid_cases(progs, ("random", "comments", "dense"))
+    return cases
+
+
+def fam_semi(run):
+    cases = pfam.semi_cases()
+    progs, hit, labels = pfam.gen_programs(seed_of(run), budget(run, 150, 1500))
+    cases += pfam.valid_cases(progs, ("newlines", "semicolons", "comments"))
+    return cases
+
+
+check_c07 = lex_check(
+    "C07", "theories/props/C07.v", ["gen/GenOps.vo", "gen/GenClasses.vo"], fam_lex,
+    "the token dump tiles the source; longest match; keywords; identifier classes; literal kinds",
+    "exhaustive: every ordered pair of %d representative tokens (48 operators, 25 keywords, identifiers incl. non-ASCII and "
+    "keyword-prefixed ones, literals of every form) joined by each of {nothing, blank, tab, newline, general comment, line comment}, "
+    "plus the token streams of generated programs in random layouts; the crate's token dump (hook) is compared with the model's (full "
+    "line: offsets, kinds, texts, end, line table) and judged by an independent spec lexer (tools/pfam.py spec_lex): same kinds and texts, "
+    "every token text is the source text at its offset; non-trivial = inputs the crate scans to the end" % len(pfam.REPR_TOKENS), True)
+
+check_c08 = lex_check(
+    "C08", "theories/props/C08.v", ["gen/GenTrigger.vo", "gen/GenClasses.vo"], fam_semi,
+    "a semicolon is synthesised exactly where the spec's rule says",
+    "exhaustive: every token kind (48 operators, 25 keywords, 7 literal forms) x %d line-ending contexts (newline, CRLF, end of input, "
+    "blanks+newline, line comment, general comment then newline, general comment spanning a newline, general comment then another token, "
+    "two comments, comment+line comment, token) plus generated programs rendered once with newlines and once with explicit semicolons; "
+    "crate token dump == model token dump, judged by the independent spec lexer (semicolon insertion per the spec's rule 1); "
+    "non-trivial = inputs the crate scans to the end" % len(pfam.SEMI_CONTEXTS), True)
+
+
+# ---------------------------------------------------------------- C16
+
+def oracle_errloc(c, line, tl):
+    msg, adj = pfam.errloc_ok(c.src, line)
+    if msg:
+        return msg
+    if adj:
+        return "KF-21: location is right only with line = true line - 1"
+    return None
+
+
+def fam_err(run):
+    progs, hit, labels = pfam.gen_programs(seed_of(run), budget(run, 150, 1200))
+    return pfam.damaged_cases(progs) + pfam.soup_cases(seed_of(run), budget(run, 500, 5000))
+
+
+check_c16 = parser_check(
+    "C16", "theories/props/C16.v", "errloc", oracle_errloc,
+    "a rejection is a located gosyn::Error whose (line, column) is a real position: the start of the unexpected token or the end of input",
+    "generated valid programs damaged by one token-level mutation (deletion / insertion / duplication / swap / replacement) rendered over "
+    "several lines, unterminated or malformed literals and comments appended to a random line (multi-line raw strings and comments before "
+    "and at the error), token soup; every REJECTED input is judged: the error must downcast to gosyn::Error with a location; (line, column) "
+    "must be a position of the input; for an unexpected token its text must be found there, for an unexpected EOF it must be the end of "
+    "input; crate and model compared on the whole error line; non-trivial = rejected inputs",
+    fam_err, tokens=False, nontrivial=lambda c, l: l.startswith("ERR"))
+
+
+def kf21(case, msg, line):
+    return msg.startswith("KF-21")
+
+
+def kf5(case, msg, line):
+    """KF-5: the crate's trigger table contains `package`: with every synthetic ';' that directly follows the
+    keyword package removed from the crate's stream, crate and spec tokenisation agree"""
+    if "crate ('O', ';')" not in msg:
+        return False
+    toks, rest = pfam.parse_token_line(line)
+    nc = [(p, k, t) for p, k, t in toks if k != "C"]
+    kept = []
+    removed = 0
+    for j, (p, k, t) in enumerate(nc):
+        if k == "O" and t == ";" and j > 0 and nc[j - 1][1:] == ("K", "package") and not pfam.lexeme_at(case.src, p, ";"):
+            removed += 1
+            continue
+        kept.append((k, t))
+    try:
+        want = [(k, t) for p, k, t in pfam.spec_lex(case.src) if k != "C"]
+    except ValueError:
+        return False
+    return removed > 0 and kept == want
+
+
+KNOWN_CLASSIFIERS = {"KF-5": kf5, "KF-21": kf21}
 
 REGISTRY = {
     "C10": check_c10,
@@ -539,4 +680,8 @@ REGISTRY = {
     "C05": check_c05,
     "C06": check_c06,
     "C11": check_c11,
+    "C04": check_c04,
+    "C07": check_c07,
+    "C08": check_c08,
+    "C16": check_c16,
 }
